@@ -41,6 +41,9 @@ func (g *Gen) ret(x *ssa.Return, st *State) {
 	if g.c == nil {
 		return
 	}
+	if g.c.NoReturn && !g.c.Extern && !g.c.Trusted {
+		g.assert(st, "noreturn", "", "false", "the contract says this function never returns normally", x.Pos())
+	}
 	// postconditions may mention locals that are in scope at the return (ghost-free
 	// way of naming intermediate values); parameters and results take precedence
 	vars := g.callScope(map[string]Val{})
@@ -93,9 +96,6 @@ func (g *Gen) frameObls(st *State, pos token.Pos) {
 		}
 		if g.shared()[c] {
 			continue // shared components change under interference; this goroutine's writes are governed by guar
-		}
-		if g.m.specs.History[c] {
-			continue // write-only ghost history
 		}
 		cur, init := st.heap[c], g.heapGet(g.entry, c)
 		if cur == init {
